@@ -1,4 +1,5 @@
 import Pcore.Model.GoMap
+import Pcore.Model.ArrayImpl
 /-!
 # Model of `types.Hash` / `types.MutableHashValue` (types/hashtype.go, as it is after the `fix:` commits)
 
@@ -9,18 +10,21 @@ Every operation that consults the index therefore returns the receiver too (with
 | Go (types/hashtype.go)                              | Lean                                   |
 |-----------------------------------------------------|----------------------------------------|
 | `Hash{entries, index}`                    :31-36    | `Hash`                                 |
-| `BuildHash` / `WrapHash` / `WrapHash2`    :587-603  | `Hash.wrap` (no check for equal keys)  |
-| `valueIndex`                              :1421     | `buildIndex`, `Hash.valueIndex`        |
-| `Delete`                                  :806-813  | `Hash.delete`                          |
-| `DeleteAll`                               :815-833  | `Hash.deleteAll`                       |
-| `get` / `Get` / `Get2` / `Get4` / `Get5`  :1054-1113| `Hash.get` (`Get4`: `key (str s)` = the raw string, C07) |
-| `IncludesKey` / `IncludesKey2`            :1115-1123| `Hash.includesKey`                     |
-| `Keys` / `Values` / `Len` / `At` / `Each*`:1133-1143, 799, 847 | `Hash.keys` / `values` / `len` / `atIdx` / `entries` |
-| `Merge` / `mergeEntries`                  :1145-1172| `Hash.merge` / `mergeEntries`          |
-| `NewMutableHash` / `PutAll` / `Put`       :1432-1447| `Hash.wrap []` / `Hash.putAll` / `Hash.putM` |
+| `BuildHash` / `WrapHash` / `WrapHash2`    :594-610  | `Hash.wrap` (no check for equal keys)  |
+| `valueIndex`                              :1430     | `buildIndex`, `Hash.valueIndex`        |
+| `Delete`                                  :813-820  | `Hash.delete`                          |
+| `DeleteAll`                               :822-840  | `Hash.deleteAll`                       |
+| `get` / `Get` / `Get2` / `Get4` / `Get5`  :1061-1120| `Hash.get` (`Get4`: `key (str s)` = the raw string, C07) |
+| `IncludesKey` / `IncludesKey2`            :1122-1130| `Hash.includesKey`                     |
+| `Keys` / `Values` / `Len` / `At` / `Each*`:1140-1150, 806, 854 | `Hash.keys` / `values` / `len` / `atIdx` / `entries` |
+| `Merge` / `mergeEntries`                  :1152-1179| `Hash.merge` / `mergeEntries`          |
+| `Slice` / `SelectPairs` / `RejectPairs` / `Sort` / `EachSlice` :1189, 932, 1021, 1216, 863 | `Hash.slice` / `selectPairs` / `rejectPairs` / `sort` / `eachSlice` |
+| `NewMutableHash` / `PutAll` / `Put`       :1441-1470| `Hash.wrap []` / `Hash.putAll` / `Hash.putM` |
 | parser `{k => v, …}` → `BasicCollector.AddHash` → `BuildHash` (types/parser.go:271, basiccollector.go:36) | `Hash.wrap` |
 | parser `[k => v, …]` → `convertHashEntries` → `WrapHash` (types/parser.go:356)                           | `Hash.wrap` |
 
+Not modelled: the cached inferred types (`reducedType`, `detailedType`; `PutAll` resets both together with the
+index) and `MutableHashValue.freeze` (used by `Hash.new(tree)` only) — they do not influence any query of C09.
 `none` results are Go runtime faults (slice index out of range): reachable only when the index disagrees
 with the entries.  Core Lean only.
 -/
@@ -105,6 +109,23 @@ def get (key : α → κ) (h : Hash α β κ) (k : κ) : Hash α β κ × Option
 def includesKey (key : α → κ) (h : Hash α β κ) (k : κ) : Hash α β κ × Bool :=
   let r := h.valueIndex key
   (r.1, (GoMap.get r.2 k).isSome)
+
+/-- `Slice(i, j)`: `WrapHash(hv.entries[i:j])`; `none` = slice bounds fault (the model allows `j` up to the length) -/
+def slice (h : Hash α β κ) (i j : Nat) : Option (Hash α β κ) :=
+  if i ≤ j ∧ j ≤ h.entries.length then some (wrap ((h.entries.drop i).take (j - i))) else none
+
+/-- `SelectPairs`: `selected = append(selected, e)` for every entry the predicate accepts -/
+def selectPairs (p : α × β → Bool) (h : Hash α β κ) : Hash α β κ :=
+  wrap (Arr.rejectLoop (fun e => !p e) h.entries [])
+
+/-- `RejectPairs` -/
+def rejectPairs (p : α × β → Bool) (h : Hash α β κ) : Hash α β κ := wrap (Arr.rejectLoop p h.entries [])
+
+/-- `Sort`: `sort.Sort` on a copy of the entries, comparing keys -/
+def sort (le : α → α → Bool) (h : Hash α β κ) : Hash α β κ := wrap (h.entries.mergeSort (fun a b => le a.1 b.1))
+
+/-- `EachSlice` -/
+def eachSlice (n : Int) (h : Hash α β κ) : Option (List (List (α × β))) := Arr.eachSlice n h.entries
 
 def keys (h : Hash α β κ) : List α := h.entries.map (·.1)
 def values (h : Hash α β κ) : List β := h.entries.map (·.2)
